@@ -8,7 +8,7 @@ from . import maps
 
 ID = "C11"
 LEVEL = "exploration"
-BUDGET = {"quick": 2500, "thorough": 250000}
+BUDGET = {"quick": 2500, "thorough": 750000}
 RULE = ("case = an iterable expression: base (Array/List/Tuple of Int|String length 0..12, Range with 0-3 arguments incl. "
         "omitted '_', either sign of step, zero step, empty/inverted intervals, spans not divisible by the step; Table/Tree "
         "walked directly) wrapped in up to 3 views: Slice (1-4 arguments, '_', negative-from-end, beyond both ends, step "
